@@ -80,10 +80,18 @@ def executionAllowedHook (s : TokState) : TokState × Out := argsToIPLD s
     stands for "failed as it must", then the arguments as any reader sees them -/
 def executionAllowedMissing (s : TokState) : TokState × Out := argsToIPLD s
 
+/-- `ExecutionAllowedWithArgsHook` with a hook whose result violates the chain's policy: the check is refused
+    (the hook's arguments decide), the token's own arguments stay what they were and are not remembered -/
+def executionAllowedHookDenied (s : TokState) : TokState × Out := argsToIPLD s
+
+/-- `ExecutionAllowedWithArgsHook` with a hook that hands back `WriteableClone()` untouched: the clone is the
+    hook's own copy; whatever the validator does with it does not reach the token -/
+def executionAllowedHookClone (s : TokState) : TokState × Out := argsToIPLD s
+
 /-- the read-only operations of the stream -/
 inductive ROp where
   | argsToIPLD | argsString | metaString | argsIter | metaIter | executionAllowed | seal
-  | executionAllowedHook | executionAllowedMissing
+  | executionAllowedHook | executionAllowedMissing | executionAllowedHookDenied | executionAllowedHookClone
   deriving DecidableEq, Repr
 
 def runOp : ROp → TokState → TokState × Out
@@ -96,6 +104,8 @@ def runOp : ROp → TokState → TokState × Out
   | .seal => Immut.sealReads
   | .executionAllowedHook => Immut.executionAllowedHook
   | .executionAllowedMissing => Immut.executionAllowedMissing
+  | .executionAllowedHookDenied => Immut.executionAllowedHookDenied
+  | .executionAllowedHookClone => Immut.executionAllowedHookClone
 
 /-! ### threads and schedules -/
 
